@@ -30,6 +30,10 @@ claim('C05', 'Mixed: frames of the edit primitives proved (replace = functional 
 claim('C06', 'Mixed: the table invariant (every entry names a successor, every successor has an entry, keys preserved under position-wise renaming) is proved for '
       'SyntheticBranch.replace_jump_targets; assigned-before-use and in-range are decided per instance on every reachable (block, valuation) of the product '
       'exploration (bounded).', TB, PROOF_PLUS_BOUNDED, '5.C06')
+claim('C09', 'Mixed: the opcode classification is decided completely for the running interpreter (finite enumeration of dis.opmap against dis.hasjrel/hasjabs and '
+      'opcode._inline_cache_entries); block partition/successor claims are checked on a corpus of standard-library code objects against an independent ground truth '
+      '(bounded); contracts on FlowInfo/utils are being brought under proof.',
+      TB + '; WFdis and A-uncond assumed about dis; only Python 3.12 is installed', 'finite case split over the interpreter\'s opcode table + ' + PROOF_PLUS_BOUNDED, '5.C09')
 claim('C13', 'Mixed, mostly proved: find_head, find_headers_and_entries (top-level graphs), find_exiting_and_exits, is_reachable_dfs, exclude_blocks, '
       'jump_targets, is_exiting are proved equal to their definitions for all graphs (incl. external targets, duplicates, back edges); compute_scc/scc, '
       '_doms/_post_doms/_find_dominators_internal and _imm_doms are compared with brute-force path-based definitions on all small digraphs (bounded).',
